@@ -7,6 +7,7 @@ package rlp
 import (
 	"bytes"
 	"fmt"
+	"io"
 	"math/big"
 	"reflect"
 	"runtime"
@@ -187,6 +188,10 @@ func vfSame(a, b reflect.Value) bool {
 		}
 		return vfSame(a.Elem(), b.Elem())
 	case reflect.Struct:
+		if a.Type() == reflect.TypeOf(big.Int{}) {
+			x, y := a.Interface().(big.Int), b.Interface().(big.Int)
+			return x.Cmp(&y) == 0
+		}
 		for i := 0; i < a.NumField(); i++ {
 			if !vfSame(a.Field(i), b.Field(i)) {
 				return false
@@ -222,7 +227,8 @@ func vfTypedRoundTrip(o *vfOut, r *vfRand, name string, in interface{}) {
 	}) {
 		return
 	}
-	if genc, gerr := gethrlp.EncodeToBytes(in); gerr == nil && !bytes.Equal(genc, enc) {
+	// (the reference does not know this package's RawValue type: "kinds" is not compared)
+	if genc, gerr := gethrlp.EncodeToBytes(in); name != "kinds" && gerr == nil && !bytes.Equal(genc, enc) {
 		o.Viol("encode-differs-from-reference", fmt.Sprintf("%s kardia=%x geth=%x", name, enc, genc))
 	}
 	h := vfHex(enc)
@@ -249,6 +255,167 @@ func vfTypedRoundTrip(o *vfOut, r *vfRand, name string, in interface{}) {
 	})
 	o.Stat("typed." + name)
 	o.Case("t:"+name+":"+h, len(enc) > 2)
+}
+
+// every basic kind the codec has a dedicated reader/writer for
+type vfKinds struct {
+	S   string
+	B   bool
+	Z   [0]byte
+	O   [1]byte
+	F   [5]byte
+	N   big.Int
+	P   *big.Int
+	R   RawValue
+	U8  uint8
+	U32 uint32
+	L   []string
+	BB  []bool
+}
+
+func vfGenKinds(r *vfRand) *vfKinds {
+	k := &vfKinds{S: string(vfGenBytes(r)), B: r.Bool(), U8: uint8(r.Intn(256)), U32: uint32(r.U64() >> uint(32+r.Intn(32))), L: []string{}, BB: []bool{}}
+	if len(k.S) > 300 {
+		k.S = k.S[:300]
+	}
+	k.O[0] = byte(r.Pick(0, 1, 0x7f, 0x80, 0xff))
+	copy(k.F[:], r.Bytes(5))
+	if r.Chance(30) {
+		k.F = [5]byte{}
+	}
+	k.N.SetBytes(r.Bytes(r.Pick(0, 1, 8, 9, 33)))
+	k.P = new(big.Int).SetBytes(r.Bytes(r.Pick(0, 1, 8, 32)))
+	raw, _ := EncodeToBytes(vfGenItem(r, 2))
+	k.R = raw
+	for j := r.Intn(3); j > 0; j-- {
+		k.L = append(k.L, string(r.Bytes(r.Pick(0, 1, 3, 60))))
+		k.BB = append(k.BB, r.Bool())
+	}
+	return k
+}
+
+// vfStreamWalk reads one value with the Stream API (Kind, List/ListEnd, Bytes, Raw) and renders it
+// like vfItemText; used against DecodeBytes on the same input
+func vfStreamWalk(s *Stream, depth int) (string, error) {
+	k, _, err := s.Kind()
+	if err != nil {
+		return "", err
+	}
+	if k != List {
+		b, err := s.Bytes()
+		if err != nil {
+			return "", err
+		}
+		return "s" + vfHex(b), nil
+	}
+	if _, err := s.List(); err != nil {
+		return "", err
+	}
+	var parts []string
+	for {
+		if depth > 64 {
+			return "", fmt.Errorf("too deep")
+		}
+		t, err := vfStreamWalk(s, depth+1)
+		if err == EOL {
+			break
+		}
+		if err != nil {
+			return "", err
+		}
+		parts = append(parts, t)
+	}
+	if err := s.ListEnd(); err != nil {
+		return "", err
+	}
+	return "[" + strings.Join(parts, ",") + "]", nil
+}
+
+// vfApis: the other entry points on one byte string - all must agree with DecodeBytes / Split
+func vfApis(o *vfOut, bs []byte) {
+	h := vfHex(bs)
+	want, ok := vfDecAny(bs)
+	// Stream API over a plain reader with the input length as limit
+	st := NewStream(bytes.NewReader(bs), uint64(len(bs)))
+	got, err := vfStreamWalk(st, 0)
+	if ok {
+		if err != nil || "ok "+got != want {
+			o.Viol("stream-api-differs-from-decodebytes", fmt.Sprintf("input=%s stream=%s/%v decodebytes=%s", h, got, err, want))
+		}
+	} else if err == nil {
+		// DecodeBytes also refuses trailing bytes; the stream walk reads one value only
+		if _, _, rest, e2 := Split(bs); e2 != nil || len(rest) == 0 {
+			o.Viol("stream-api-accepts-what-decodebytes-rejects", fmt.Sprintf("input=%s stream=%s", h, got))
+		}
+	}
+	// Decode from a reader = DecodeBytes on inputs holding exactly one value
+	var v1 interface{}
+	e1 := Decode(bytes.NewReader(bs), &v1)
+	if ok && (e1 != nil || "ok "+vfItemText(v1) != want) {
+		o.Viol("decode-reader-differs-from-decodebytes", fmt.Sprintf("input=%s reader=%v/%v decodebytes=%s", h, vfItemText(v1), e1, want))
+	}
+	// Stream.Uint64 / ReadBytes against the typed decoders
+	var u64 uint64
+	eu := DecodeBytes(bs, &u64)
+	su, es := NewStream(bytes.NewReader(bs), uint64(len(bs))).Uint64()
+	if (eu == nil) != (es == nil) && !(eu != nil && es == nil && len(bs) > 0) || (eu == nil && es == nil && su != u64) {
+		o.Viol("stream-uint-differs", fmt.Sprintf("input=%s stream=%d/%v typed=%d/%v", h, su, es, u64, eu))
+	}
+	su2, rest2, es2 := SplitUint64(bs)
+	if es == nil && (es2 != nil || su2 != su) {
+		o.Viol("splituint64-differs", fmt.Sprintf("input=%s split=%d/%v stream=%d", h, su2, es2, su))
+	}
+	if es2 == nil && es != nil {
+		o.Viol("splituint64-accepts-what-stream-rejects", fmt.Sprintf("input=%s split=%d rest=%x stream err=%v", h, su2, rest2, es))
+	}
+	var arr [4]byte
+	ea := DecodeBytes(bs, &arr)
+	var arr2 [4]byte
+	er := NewStream(bytes.NewReader(bs), uint64(len(bs))).ReadBytes(arr2[:])
+	if ea == nil && (er != nil || arr != arr2) {
+		o.Viol("stream-readbytes-differs", fmt.Sprintf("input=%s readbytes=%x/%v typed=%x", h, arr2, er, arr))
+	}
+	// raw.go: SplitString / SplitList are Split with a kind test
+	k, c, rest, e0 := Split(bs)
+	cs, rs, e3 := SplitString(bs)
+	cl, rl, e4 := SplitList(bs)
+	if e0 == nil {
+		if k == List {
+			if e4 != nil || !bytes.Equal(cl, c) || !bytes.Equal(rl, rest) || e3 == nil {
+				o.Viol("splitlist-differs", fmt.Sprintf("input=%s", h))
+			}
+		} else if e3 != nil || !bytes.Equal(cs, c) || !bytes.Equal(rs, rest) || e4 == nil {
+			o.Viol("splitstring-differs", fmt.Sprintf("input=%s", h))
+		}
+	} else if e3 == nil || e4 == nil {
+		o.Viol("split-variants-accept-what-split-rejects", fmt.Sprintf("input=%s", h))
+	}
+	// list iterator: the values of a list, in order, are its content; their number is CountValues
+	if e0 == nil && k == List {
+		if it, err := NewListIterator(RawValue(bs[:len(bs)-len(rest)])); err != nil {
+			o.Viol("iterator-refuses-a-list", fmt.Sprintf("input=%s err=%v", h, err))
+		} else {
+			var cat []byte
+			n := 0
+			bad := false
+			for it.Next() {
+				if it.Err() != nil {
+					bad = true
+					break
+				}
+				cat = append(cat, it.Value()...)
+				n++
+			}
+			cnt, ec := CountValues(c)
+			if !bad && (!bytes.Equal(cat, c) || ec != nil || cnt != n) {
+				o.Viol("iterator-differs", fmt.Sprintf("input=%s values=%x content=%x n=%d count=%d/%v", h, cat, c, n, cnt, ec))
+			}
+			if bad && ec == nil {
+				o.Viol("iterator-error-on-countable-list", fmt.Sprintf("input=%s", h))
+			}
+		}
+	}
+	o.Stat("apis")
 }
 
 func vfItemText(v interface{}) string {
@@ -657,6 +824,47 @@ func TestVerifC16(t *testing.T) {
 				t12.F = &[2]vfPair{*vfGenPairP(r), *vfGenPairP(r)}
 			}
 			vfTypedRoundTrip(o, r, "nil-tags", t12)
+			vfTypedRoundTrip(o, r, "kinds", vfGenKinds(r))
+		}
+
+		// ---- (e) the other entry points: Stream API, Decode(reader), EncodeToReader, list iterator,
+		// SplitString/SplitList/SplitUint64, AppendUint64/IntSize - on the value's encoding, on the
+		// mutated byte string of (b) and on a typed encoding
+		{
+			vfGuard(o, "panic-api", func() string { return vfHex(enc) }, func() { vfApis(o, enc) })
+			vfGuard(o, "panic-api", func() string { return vfHex(bs) }, func() { vfApis(o, bs) })
+			kb, _ := EncodeToBytes(vfGenKinds(r))
+			vfGuard(o, "panic-api", func() string { return vfHex(kb) }, func() { vfApis(o, kb) })
+			vfGuard(o, "panic-api", func() string { return txt }, func() {
+				size, rd, err := EncodeToReader(item)
+				if err != nil {
+					o.Viol("encode-error", "EncodeToReader "+txt+" "+err.Error())
+					return
+				}
+				all, _ := io.ReadAll(rd)
+				// small reads as well: a second reader drained byte by byte
+				_, rd2, _ := EncodeToReader(item)
+				var slow []byte
+				one := make([]byte, 1+r.Intn(3))
+				for {
+					n, e := rd2.Read(one)
+					slow = append(slow, one[:n]...)
+					if e != nil {
+						break
+					}
+				}
+				if size != len(enc) || !bytes.Equal(all, enc) || !bytes.Equal(slow, enc) {
+					o.Viol("encodetoreader-differs", fmt.Sprintf("%s: size=%d reader=%x chunked=%x bytes=%x", txt, size, all, slow, enc))
+				}
+			})
+			nn := []uint64{0, 1, 127, 128, 255, 256, 65535, 65536, 1<<32 - 1, 1 << 32, 1<<56 - 1, 1 << 56, ^uint64(0), r.U64() >> uint(r.Intn(64))}[r.Intn(14)]
+			en, _ := EncodeToBytes(nn)
+			if a := AppendUint64([]byte{0xaa}, nn); !bytes.Equal(a[1:], en) || a[0] != 0xaa {
+				o.Viol("appenduint64-differs", fmt.Sprintf("n=%d append=%x encode=%x", nn, a, en))
+			}
+			if IntSize(nn) != len(en) {
+				o.Viol("intsize-differs", fmt.Sprintf("n=%d IntSize=%d len(enc)=%d", nn, IntSize(nn), len(en)))
+			}
 		}
 
 		// ---- (c) integers and typed values: encode and decode back
